@@ -3,14 +3,16 @@
    segment / child indexes, which C04 and C10 prove to be exact accelerators);
    kernel-checked here: SimplePoint and Rect write the bytes of Point and of the
    five-point Polygon, and answer predicates alike (C09).  That every observable
-   is identical under the seven index-option variants and the three
-   representation-option variants is decided on every run by re-parsing every
-   accepted document under all of them.  The RequireValid clause is proved
+   is identical under the seven index-option variants is decided on every run by
+   re-parsing every accepted document under all of them.  The representation
+   options are proved on the parse model (ParseRepr.v): same acceptance, same
+   bytes, same validity, Circle under both; that Rect answers every predicate as
+   its polygon is decided per run (SimplePoint as Point is proved).  The RequireValid clause is proved
    outright on the parse model (ParseValid.v): what Parse returns under
    RequireValid is valid, and RequireValid changes nothing else - the two runs
    on the same tree either return the same object, or the plain run returns an
    object that reports itself invalid and the RequireValid run an error. *)
-From GJ Require Import Base JsonConst Json JsonProofs Obj ObjProofs ParseValid.
+From GJ Require Import Base JsonConst Json JsonProofs Obj ObjProofs ParseValid ParseRepr.
 
 Theorem C08_simplepoint_same_json : forall (fmt : Z -> list Z) p, emit fmt (JSimple p) = emit fmt (JPoint p None).
 Proof. exact emit_simple_as_point. Qed.
@@ -31,7 +33,19 @@ Theorem C08_require_valid_exact : forall fuel o one v,
   rv_rel o (parse fuel (with_rv o false) one v) (parse fuel (with_rv o true) one v).
 Proof. exact parse_rv_exact. Qed.
 
+(* the representation options: for every document and any two settings of AllowSimplePoints / AllowRects,
+   Parse accepts under one iff under the other, with identical bytes, identical validity, and a Circle under both *)
+Theorem C08_representation_options_only_change_the_type : forall (fmt : Z -> list Z) fuel o a1 r1 a2 r2 one v g1,
+  parse fuel (with_repr o a1 r1) one v = POk g1 ->
+  exists g2, parse fuel (with_repr o a2 r2) one v = POk g2 /\
+             emit fmt g2 = emit fmt g1 /\ g_valid o g2 = g_valid o g1 /\ is_circle_g g2 = is_circle_g g1.
+Proof. exact repr_options_only_change_the_type. Qed.
+Theorem C08_representation_options_same_rejections : forall fuel o a1 r1 a2 r2 one v,
+  repr_rel (parse fuel (with_repr o a1 r1) one v) (parse fuel (with_repr o a2 r2) one v).
+Proof. exact parse_repr. Qed.
+
 Print Assumptions C08_rect_same_json.
+Print Assumptions C08_representation_options_only_change_the_type.
 Print Assumptions C08_require_valid_sound.
 Print Assumptions C08_require_valid_exact.
 Print Assumptions C08_simplepoint_same_answers.
